@@ -90,5 +90,5 @@ move=> /prodf_eq0 [l lj]; rewrite addrC subr_eq0 => /eqP /yinj e.
 by rewrite e eqxx in lj.
 Qed.
 End ExtCauchy.
-Check c0.
-Print Assumptions c0.
+
+
